@@ -141,6 +141,13 @@ def cases(tier, seed):
     pools["opids-tagged"] = pools["opids"] if tier != "quick" else over(["a", "B", "_", "-"], 2) + ["getUser", "get_user", "GetUser", "get-user"]
     pools["tags"] = (over(["a", "B", "1", "_", "-", ".", "/", " "], 2 if tier == "quick" else 3)
                      + ["user.profile", "user-profile", "user profile", "User/Profile", "user:profile", "userProfile", "user_profile", "UserProfile"] + extras)
+    # long names that agree in their first N characters and differ only at the very end (N = 60, 100, 128, 180): no derived name may be cut short
+    stem = "".join(w.capitalize() for w in ("tenant organisation workspace project environment deployment pipeline stage step artefact annotation revision history "
+                                            "snapshot comparison request envelope payload wrapper container element attribute descriptor").split())
+    for n in (60, 100, 128, 180):
+        out.append({"kind": "ns", "ns": "schemas", "names": [stem[:n] + "BodyPut", stem[:n] + "BodyPatch"]})
+        out.append({"kind": "ns", "ns": "opids", "names": [stem[:n] + "BodyPut", stem[:n] + "BodyPatch"]})
+        out.append({"kind": "ns", "ns": "props", "names": [stem[:n] + "BodyPut", stem[:n] + "BodyPatch"]})
     # names the generator INVENTS for inline schemas: the same local name under two different owners must give two classes
     for owner in INVENTED_OWNERS:
         for same in (False, True):
